@@ -190,15 +190,25 @@ Definition to_puzz_link_url (h w : Z) (pos : list clue) : res str :=
   let* body := compass_body h w pos in
   Ok (compass_prefix ++ py_str_int w ++ slash ++ py_str_int h ++ slash ++ body).
 
-(* str.split("/") *)
-Fixpoint split_slash (s : str) : list str :=
+(* url.split("?", 1)[-1]: the text after the first question mark (the whole text if there is none) *)
+Fixpoint after_first (c0 : ascii) (s : str) : option str :=
   match s with
-  | [] => [[]]
+  | [] => None
+  | c :: t => if ascii_eqb c c0 then Some t else after_first c0 t
+  end.
+
+Definition after_question (s : str) : str :=
+  match after_first "?"%char s with Some t => t | None => s end.
+
+(* one step of .split("/", n): the field before the first slash and the rest after it *)
+Fixpoint cut_slash (s : str) : option (str * str) :=
+  match s with
+  | [] => None
   | c :: t =>
-      if is_slash c then [] :: split_slash t
-      else match split_slash t with
-           | hd :: r => (c :: hd) :: r
-           | [] => [[c]]
+      if is_slash c then Some ([], t)
+      else match cut_slash t with
+           | Some (a, b) => Some (c :: a, b)
+           | None => None
            end
   end.
 
@@ -245,14 +255,22 @@ Fixpoint compass_parse_loop (fuel : nat) (height width : Z) (s : str) (pos : Z) 
 
 (* parse_puzz_link_url(url): (height, width, clues) *)
 Definition parse_puzz_link_url (url : str) : res (Z * Z * list clue) :=
-  let parts := split_slash url in
-  match skipn (length parts - 3) parts with
-  | [ws; hs; body] =>
-      let* height := py_int hs 10 in
-      let* width := py_int ws 10 in
-      let* clues := compass_parse_loop (S (length body)) height width body 0 in
-      Ok (height, width, clues)
-  | _ => Err ValueError                                     (* not enough values to unpack *)
+  (* width, height, body = url.split("?", 1)[-1].split("/", 3)[1:] *)
+  match cut_slash (after_question url) with
+  | Some (_, r1) =>
+      match cut_slash r1 with
+      | Some (ws, r2) =>
+          match cut_slash r2 with
+          | Some (hs, body) =>
+              let* height := py_int hs 10 in
+              let* width := py_int ws 10 in
+              let* clues := compass_parse_loop (S (length body)) height width body 0 in
+              Ok (height, width, clues)
+          | None => Err ValueError                          (* not enough values to unpack *)
+          end
+      | None => Err ValueError
+      end
+  | None => Err ValueError
   end.
 
 (* ------------------------------------------------------------------ star battle *)
